@@ -25,7 +25,7 @@ func init() {
 		Run: c19,
 		Explanation: "Decides the agreement between the Usage controller, the DELETE webhook and the shipped webhook configuration: (R19.1) every Usage lookup uses the constant index key and IndexValueForObject/indexValue, the registered indexer uses the same key and function, indexValue uses the API group (not the version), and the indexer omits a Usage only when it names no resource; " +
 			"(R19.2) the objectSelector label of cluster/webhookconfigurations/usage.yaml equals the label key and value the reconciler writes, the rule covers DELETE with failurePolicy Fail, and the path equals the one registered with the webhook server; (R19.3) the webhook allows only on the zero-usages edge after a successful List, records the attempt unless already recorded, and rejects non-DELETE operations; " +
-			"(R19.4) a Usage is marked Available only after the used resource was updated with the in-use label set to the selected value, or on the edge where the label already equals that value; (R19.5) the label is removed only on an edge that is false for every count ≥ 2 of indexed Usages; (R19.6) a Usage by a resource gets an AsOwner reference to it, persisted before Available, and RespectOwnerRefs keeps existing owner references of Usages and is among the P&T apply options.",
+			"(R19.4) a Usage is marked Available only after the used resource was updated with the in-use label set to the selected value, or on the edge where the label already equals that value; (R19.5) the label is removed only on an edge that is false for every count ≥ 2 of indexed Usages; (R19.6) a Usage by a resource gets an AsOwner reference to it, persisted before Available, and RespectOwnerRefs keeps existing owner references of Usages and is among the P&T apply options. R19.5 also requires that the Usage's finalizer is removed after the Usages of the resource were counted.",
 		NotDecided:  []string{"'every delete request is refused' across API versions and time (admission plumbing, cache lag of the index)", "interleavings of Usage reconciles with deletes", "API-server label selector semantics"},
 		Assumptions: []string{"the webhook configuration shipped in cluster/webhookconfigurations is the one installed", "field indexes are maintained by controller-runtime"},
 	})
